@@ -21,6 +21,7 @@ CONSTANTS
   PriorityToAllEngines = TRUE
   PruneKeepsEqual = FALSE
   PartialCommit = FALSE
+  UpdateTouchesTruth = FALSE
 INVARIANT OneRecordPerTasking
 INVARIANT NoRecordWithoutTasking
 INVARIANT PointingReflectsTasking
